@@ -321,9 +321,11 @@ def correct_names(name, val):
     :param val: the variable name we are modifying
     :return: the new name to use
     """
-    prefix = "_" + name
-    if val.startswith(prefix):
-        return val[len(prefix):]
+    # only private names are renamed (__x becomes _Class__x), an attribute that merely starts with the class name
+    # (_Items on class Item) is what it says
+    prefix = "_" + name.lstrip("_") + "__"
+    if val.startswith(prefix) and not val.endswith("__"):
+        return val[len(prefix) - 2:]
     return val
 
 
